@@ -691,8 +691,12 @@ class AbstractExecutionTracer(ABC):  # noqa: PLR0904
             return
 
         self.disable()
-        yield
-        self.enable()
+        try:
+            yield
+        finally:
+            # Also restore the state if the body raises, e.g., a comparison of the
+            # module under test that is evaluated for a predicate and raises.
+            self.enable()
 
     @contextlib.contextmanager
     def temporarily_enable(self) -> Generator[None, None, None]:
@@ -705,8 +709,10 @@ class AbstractExecutionTracer(ABC):  # noqa: PLR0904
             return
 
         self.enable()
-        yield
-        self.disable()
+        try:
+            yield
+        finally:
+            self.disable()
 
     @abstractmethod
     def stop(self) -> None:
